@@ -10,7 +10,28 @@
 #include <new>
 
 static const char *harness_name() { return "c14_isolation"; }
-static void harness_init() { default_bank(); }
+// the default bank with LFO sensitivities on every other instrument (AMS/FMS make the chips' LFO tables audible)
+static const std::vector<uint8_t> &c14_bank()
+{
+    static std::vector<uint8_t> img;
+    if(img.empty())
+    {
+        WOPNFile *f = WOPN_Init(1, 1);
+        f->version = 2; f->lfo_freq = 0x0B; f->chip_type = 0;
+        for(unsigned i = 0; i < 128; i++)
+        {
+            make_instrument(f->banks_melodic[0].ins[i], i, false);
+            make_instrument(f->banks_percussive[0].ins[i], i, true);
+            if(i & 1) { f->banks_melodic[0].ins[i].lfosens = (uint8_t)(((i * 5) & 0x30) | 0x10 | ((i >> 1) & 7)); f->banks_percussive[0].ins[i].lfosens = (uint8_t)(0x20 | (i & 7)); }
+        }
+        size_t sz = WOPN_CalculateBankFileSize(f, 2);
+        img.resize(sz);
+        WOPN_SaveBankToMem(f, img.data(), sz, 2, 0);
+        WOPN_Free(f);
+    }
+    return img;
+}
+static void harness_init() { default_bank(); c14_bank(); }
 
 // ---------------------------------------------------------------------------------------------
 // fresh C++ heap memory is filled with a selectable pattern (not in sanitizer builds, which own the allocator):
@@ -37,14 +58,15 @@ static const bool can_fill = false;
 // histories
 // ---------------------------------------------------------------------------------------------
 struct HOp { int kind; int a, b, c; };   // 0 noteOn 1 noteOff 2 cc 3 bend 4 program 5 generate(frames=a) 6 generateFormat F32 (frames=a) 7 panic 8 sysex master volume
-struct Hist { long rate; int emu; int chips; int chiptype; std::vector<HOp> ops; };
+                                         // 9 setLfoEnabled(a) 10 setLfoFrequency(a) 11 reset 12 setChipType(a) 13 setSoftPanEnabled(a) 14 setVolumeRangeModel(a)
+struct Hist { long rate; int emu; int chips; int chiptype; int pcmrate; std::vector<HOp> ops; };
 
 static Hist gen_hist(Rng &r, int force_emu = -1)
 {
     static const int emus[] = {0, 1, 2, 3, 4, 5, 6, 8};
     Hist h; h.rate = r.pick((const long[]){8000, 22050, 44100, 48000});
     h.emu = force_emu >= 0 ? force_emu : r.pick(emus);
-    h.chips = r.range(1, 3); h.chiptype = r.range(-1, 1);
+    h.chips = r.range(1, 3); h.chiptype = r.range(-1, 1); h.pcmrate = r.chance(0.2) ? 1 : 0;
     bool slow = (h.emu == 1 || h.emu == 8);
     int n = r.range(8, 40);
     long frames_left = slow ? 1500 : 12000;
@@ -58,8 +80,14 @@ static Hist gen_hist(Rng &r, int force_emu = -1)
         else if(p < 58) { o.kind = 3; o.a = (int)r.below(2); o.b = (int)r.below(16384); }
         else if(p < 64) { o.kind = 4; o.a = (int)r.below(2); o.b = r.range(0, 127); }
         else if(p < 92) { o.kind = r.chance(0.8) ? 5 : 6; o.a = (int)std::min<long>(frames_left, r.chance(0.3) ? r.range(1, 40) : r.range(100, slow ? 400 : 1500)); frames_left -= o.a; if(o.a <= 0) { o.kind = 2; o.a = 0; o.b = 7; o.c = 100; } }
-        else if(p < 95) o.kind = 7;
-        else { o.kind = 8; o.a = r.range(0, 127); }
+        else if(p < 94) o.kind = 7;
+        else if(p < 96) { o.kind = 8; o.a = r.range(0, 127); }
+        else
+        {   // configuration calls in the middle of the history: they re-program or re-create the chips of this instance only
+            int q = (int)r.below(6);
+            o.kind = 9 + q;
+            o.a = q == 0 ? (int)r.below(2) : q == 1 ? r.range(0, 7) : q == 3 ? (int)r.below(2) : q == 4 ? (int)r.below(2) : q == 5 ? r.range(0, 5) : 0;
+        }
         h.ops.push_back(o);
     }
     HOp g; g.kind = 5; g.a = (int)std::min<long>(std::max<long>(frames_left, 64), slow ? 300 : 800); g.b = g.c = 0; h.ops.push_back(g);
@@ -93,7 +121,8 @@ struct Runner
         tap.keep_log = true; tap.attach(d);
         if(opn2_setNumChips(d, hist.chips) != 0) out.bad_returns++;
         if(opn2_switchEmulator(d, hist.emu) != 0) out.bad_returns++;
-        if(opn2_openBankData(d, default_bank().data(), (long)default_bank().size()) != 0) out.bad_returns++;
+        if(hist.pcmrate) opn2_setRunAtPcmRate(d, 1);
+        if(opn2_openBankData(d, c14_bank().data(), (long)c14_bank().size()) != 0) out.bad_returns++;
         if(hist.chiptype >= 0) opn2_setChipType(d, hist.chiptype);
         out.emu_name = opn2_chipEmulatorName(d);
         out.chiptype_obtained = opn2_getChipType(d);
@@ -114,6 +143,12 @@ struct Runner
         case 6: { size_t at = out.pcmf.size(); out.pcmf.resize(at + (size_t)o.a * 2); OPNMIDI_AudioFormat f; f.type = OPNMIDI_SampleType_F32; f.containerSize = 4; f.sampleOffset = 8;
                   int got = opn2_generateFormat(d, o.a * 2, (OPN2_UInt8 *)(out.pcmf.data() + at), (OPN2_UInt8 *)(out.pcmf.data() + at + 1), &f); if(got != o.a * 2) out.bad_returns++; break; }
         case 7: opn2_panic(d); break;
+        case 9: opn2_setLfoEnabled(d, o.a); break;
+        case 10: opn2_setLfoFrequency(d, o.a); break;
+        case 11: opn2_reset(d); break;
+        case 12: opn2_setChipType(d, o.a); break;
+        case 13: opn2_setSoftPanEnabled(d, o.a); break;
+        case 14: opn2_setVolumeRangeModel(d, o.a); break;
         default: { uint8_t m[] = {0xF0, 0x7F, 0x7F, 0x04, 0x01, 0x00, (uint8_t)o.a, 0xF7}; opn2_rt_systemExclusive(d, m, sizeof(m)); break; }
         }
     }
@@ -140,7 +175,7 @@ static void interfere(Rng &r, std::vector<Runner *> &others, std::vector<Hist> &
     }
     else if(k == 1 && !others.empty()) { Runner *o = others[r.below((uint32_t)others.size())]; for(int i = 0; i < 4 && !o->done(); i++) o->step(); }
     else if(k == 2 && !others.empty()) { size_t i = r.below((uint32_t)others.size()); others[i]->close(); delete others[i]; others.erase(others.begin() + (long)i); }
-    else if(k == 3) { OPN2_MIDIPlayer *t = opn2_init(r.pick((const long[]){8000, 44100})); if(t) { opn2_switchEmulator(t, (int)r.pick((const int[]){1, 8, 0, 5, 4, 2, 3, 6})); opn2_setChipType(t, (int)r.below(2)); short b[64]; opn2_generate(t, 64, b); opn2_close(t); } }
+    else if(k == 3) { OPN2_MIDIPlayer *t = opn2_init(r.pick((const long[]){8000, 44100})); if(t) { if(r.chance(0.3)) opn2_setRunAtPcmRate(t, 1); opn2_switchEmulator(t, (int)r.pick((const int[]){1, 8, 0, 5, 4, 2, 3, 6})); opn2_setChipType(t, (int)r.below(2)); short b[64]; opn2_generate(t, 64, b); opn2_close(t); } }
     else if(k == 4) { (void)opn2_openBankFile(NULL, "/nonexistent"); (void)strlen(opn2_errorString()); (void)opn2_errorInfo(NULL); }
     else if(!others.empty()) { Runner *o = others[r.below((uint32_t)others.size())]; if(o->d) { opn2_switchEmulator(o->d, (int)r.pick((const int[]){1, 8, 0, 2})); } }
 }
